@@ -20,6 +20,9 @@ let () =
     | "case" :: _ -> st := []; fl := { f_always = false; f_never = false; f_dontdisc = false }; print_endline line
     | ["flags"; a; n; d] -> fl := { f_always = (a = "1"); f_never = (n = "1"); f_dontdisc = (d = "1") }; obs ()
     | ["conn"; rev] -> doit (OConn (rev = "1"))
+    | ["connhold"; rev] -> doit (OConnHold (rev = "1"))
+    | ["connrefuse"; rev] -> doit (OConnRefuse (rev = "1"))
+    | ["release"; i] -> doit (ORelease (ni i))
     | ["adv"; i] -> doit (OAdv (ni i))
     | ["init"; i; sh] -> doit (OInit (ni i, sh <> "0"))
     | ["drop"; i] -> doit (ODrop (ni i))
